@@ -100,13 +100,15 @@ func genBinding(rt *rapid.T) map[string]interface{} {
 func genOp(rt *rapid.T, c *Case, conc bool) Op {
 	names := len(c.Versions)
 	o := Op{Name: lang.Spread(rt, "name", names)}
-	kinds := []string{"compile", "compile", "types", "types", "exec", "exec", "deopt", "adaptive", "unit", "invalidate", "clear", "threshold", "window"}
+	kinds := []string{"compile", "compile", "types", "types", "typesweep", "exec", "exec", "deopt", "adaptive", "unit", "invalidate", "clear", "threshold", "window"}
 	if !conc {
 		kinds = append(kinds, "redefine", "redefine", "redefine")
 	}
 	o.Op = kinds[lang.Spread(rt, "op", len(kinds))]
 	switch o.Op {
-	case "types":
+	case "types", "typesweep":
+		// typesweep: the route is compiled for every signature in turn (from a drawn starting
+		// point): more signatures than a per-route specialization table keeps
 		o.Types = lang.Spread(rt, "types", len(typeMaps))
 	case "exec":
 		o.N = []int{1, 2, c.Threshold / 2, c.Threshold, c.Threshold + 1, 200}[lang.Spread(rt, "n", 6)]
@@ -362,6 +364,15 @@ func (w *world) apply(o Op, labels *[]string) *evid.Failure {
 		if f := w.checkCode("CompileRouteWithTypes", o.Name, bc, err); f != nil {
 			return f
 		}
+	case "typesweep":
+		for k := 0; k < len(typeMaps); k++ {
+			tm := typeMaps[(o.Types+k)%len(typeMaps)]
+			bc, err := w.j.CompileRouteWithTypes(name, d.route, tm)
+			if f := w.checkCode(fmt.Sprintf("CompileRouteWithTypes (signature %d of a sweep)", k), o.Name, bc, err); f != nil {
+				return f
+			}
+		}
+		*labels = append(*labels, "type-signature-sweep")
 	case "exec":
 		for i := 0; i < o.N; i++ {
 			w.j.RecordExecution(name, time.Microsecond)
